@@ -111,6 +111,10 @@ pub fn run_format(src: &str, cfg: Config, range: Option<Range>, verify: bool) ->
 
 const SMALL: usize = 600;
 
+fn tree_depth(t: &Node) -> usize {
+    1 + t.c.iter().map(tree_depth).max().unwrap_or(0)
+}
+
 /// TLC's Json module has no null: drop null-valued keys, replace nulls in arrays by "none".
 fn strip_nulls(v: &mut Value) {
     match v {
@@ -457,7 +461,8 @@ fn observe_variant(
         }
         rev["stmts_in"] = json!(mi.c.len());
         rev["stmts_out"] = json!(mo.c.len());
-        if small {
+        // whole trees only when they are small and shallow (TLC recurses over them); digests otherwise
+        if small && tree_depth(it) <= 80 && tree_depth(ot) <= 80 {
             rev["in_tree"] = serde_json::to_value(it).unwrap();
             rev["out_tree"] = serde_json::to_value(ot).unwrap();
         }
